@@ -298,6 +298,15 @@ func H_C19_send() {
 		refuse[id] = zz.Bool()
 		cb := func(id int) simplefixgo.OutgoingHandlerFunc {
 			return func(msg simplefixgo.SendingMessage) bool {
+				if zz.Param(6) == 1 && id == 0 {
+					// the documented use of outgoing handlers: modify the message before it is sent
+					switch m := msg.(type) {
+					case *fixgen.Heartbeat:
+						m.SetTestReqID("changed-by-handler")
+					case *fixgen.TestRequest:
+						m.SetTestReqID("changed-by-handler")
+					}
+				}
 				b, _ := msg.ToBytes()
 				log = append(log, logEntry{id, append([]byte{}, b...)})
 				return !refuse[id]
@@ -369,9 +378,23 @@ func H_C19_send() {
 			zz.Assert(len(out) == 1, "C19: an accepted message is not transmitted exactly once")
 			v34, _ := fieldOf(out[0], "34")
 			zz.Assert(fs.seqs[len(fs.seqs)-1] == atoi(v34), "C19: the message was saved under a sequence number different from its own")
+			mutAt := 0
+			if zz.Param(6) == 1 {
+				for i := range log {
+					if log[i].id == 0 {
+						mutAt = i
+					}
+				}
+			}
 			for i := range log {
+				if i < mutAt {
+					continue // called before the modifying handler: saw the message as it was then
+				}
+				zz.Assert(len(log[i].bytes) == len(out[0]), "C19: a handler saw a message of different length than the one transmitted")
 				zz.Assert(zz.EqBytes(log[i].bytes, out[0]), "C19: a handler or the store saw the message differently from what is transmitted")
 			}
+			final, _ := m.ToBytes()
+			zz.Assert(zz.And(len(final) == len(out[0]), zz.EqBytes(final, out[0])), "C19: the transmitted bytes are not the message as the handlers left it")
 		}
 	}
 }
